@@ -31,6 +31,13 @@ type MoQScript struct {
 	Flow    string      `json:"flow"`
 }
 
+// KeyMoQMP4ASampleRate: known-findings key - an "mp4a" catalog track whose samplerate is missing, zero, negative or
+// beyond 24 bits is copied into the stream's MPEG-4 audio configuration; the first access unit that reaches an HLS
+// muxer divides by zero (pinned by TestVerifC35RegressMoQMP4ANoSampleRate in the core harness).
+const KeyMoQMP4ASampleRate = "c35-moq-mp4a-samplerate-unvalidated"
+
+func badMP4ARate(r int) bool { return r <= 0 || r > 0xFFFFFF }
+
 // MoQVersions are the protocol identifiers the server negotiates.
 var MoQVersions = []string{"moqt-16", "moqt-17", "moqt-18", "moqt-19"}
 
@@ -98,7 +105,7 @@ var (
 )
 
 func moqCatalogJSON(s *Src) ([]byte, int, string) {
-	if s.Odd(12) { // raw JSON oddities
+	if s.Odd(12) && !(s.Avoid != nil && s.Avoid(KeyMoQMP4ASampleRate)) { // raw JSON oddities (some carry bad mp4a sample rates)
 		js := s.Pick(
 			`{}`, `null`, `[]`, `"x"`, `1`, ``, `{`, `{"tracks":null}`, `{"tracks":{}}`, `{"tracks":[null]}`, `{"tracks":[1]}`,
 			`{"version":"1","tracks":[]}`, `{"version":1e400,"tracks":[]}`, `{"tracks":[{"codec":1}]}`,
@@ -115,7 +122,11 @@ func moqCatalogJSON(s *Src) ([]byte, int, string) {
 	cat := catalog.Catalog{Version: int(int64(s.SmallOrEvilUint(2, 10)))}
 	for i := 0; i < nTracks; i++ {
 		if i >= 4 { // big catalogs: plain entries
-			cat.Tracks = append(cat.Tracks, catalog.Track{Name: fmt.Sprint(i), Packaging: "loc", IsLive: true, Codec: moqCodecsOK[i%len(moqCodecsOK)]})
+			tr := catalog.Track{Name: fmt.Sprint(i), Packaging: "loc", IsLive: true, Codec: moqCodecsOK[i%len(moqCodecsOK)]}
+			if strings.HasPrefix(tr.Codec, "mp4a") && s.avoid(KeyMoQMP4ASampleRate) {
+				tr.Samplerate, tr.Channels = 44100, 2
+			}
+			cat.Tracks = append(cat.Tracks, tr)
 			continue
 		}
 		tr := catalog.Track{
@@ -136,7 +147,7 @@ func moqCatalogJSON(s *Src) ([]byte, int, string) {
 			tr.Namespace = s.EvilToken()
 			tr.InitData = s.Pick("", "AAAA", "!!!", "AUIAHv/hAAVnQgAeAQAEaM4G4g==")
 		}
-		if strings.HasPrefix(tr.Codec, "mp4a") || tr.Codec == "opus" {
+		if (strings.HasPrefix(tr.Codec, "mp4a") || tr.Codec == "opus") && !s.Chance(6) { // both fields are optional in the catalog
 			tr.Samplerate = []int{44100, 48000, 48000, 8000, 96000}[s.Intn(5)]
 			tr.Channels = []int{1, 2, 2, 6}[s.Intn(4)]
 		}
@@ -147,6 +158,9 @@ func moqCatalogJSON(s *Src) ([]byte, int, string) {
 			tr.Width = int(int64(s.EvilUint()))
 			tr.Height = int(int64(s.EvilUint()))
 			tr.Bitrate = int(int64(s.EvilUint()))
+		}
+		if strings.HasPrefix(tr.Codec, "mp4a") && badMP4ARate(tr.Samplerate) && s.avoid(KeyMoQMP4ASampleRate) {
+			tr.Samplerate = 44100
 		}
 		cat.Tracks = append(cat.Tracks, tr)
 	}
@@ -299,11 +313,16 @@ func GenMoQ(s *Src, nativeQUIC bool) MoQScript {
 		add(true, safeMarshal(m.Marshal), "publish-track")
 	}
 	nextGroup := uint64(0)
+	nData := 0
 	dataSubgroup := func(nTracks int) {
 		alias := uint64(1)
-		if nTracks > 1 {
-			alias = uint64(s.Range(1, nTracks))
+		if nTracks > 1 { // every declared track gets objects in turn (small catalogs), or a random one (big catalogs)
+			alias = uint64(1 + nData%nTracks)
+			if nTracks > 4 {
+				alias = uint64(s.Range(1, nTracks))
+			}
 		}
+		nData++
 		if s.Odd(10) {
 			alias = s.SmallOrEvilUint(60, 2)
 		}
@@ -317,7 +336,7 @@ func GenMoQ(s *Src, nativeQUIC bool) MoQScript {
 			ts := property.Timestamp(int64(tsv))
 			obj.Properties = property.Properties{&ts}
 		}
-		group := nextGroup
+		group := nextGroup / uint64(max(1, min(nTracks, 4))) // groups advance per track
 		nextGroup++
 		if s.Odd(5) { // out of order / gaps / repeats: the reorderer
 			group = []uint64{0, 1, 2, 3, 5, 7, 60, 100, 1 << 32, 1<<64 - 1}[s.Intn(10)]
@@ -369,7 +388,7 @@ func GenMoQ(s *Src, nativeQUIC bool) MoQScript {
 		for i := 0; i < s.Range(0, 2); i++ {
 			publishTrack()
 		}
-		for i := 0; i < s.Range(0, 6); i++ {
+		for i := 0; i < s.Range(0, 8); i++ {
 			dataSubgroup(n)
 		}
 	case "mixed":
